@@ -394,6 +394,34 @@ func (x *Exec) modCells(env *SpecEnv, mts []ModTarget) map[string][]Term {
 				hn, _ := x.S.CellHeapT(pt)
 				ex[hn] = append(ex[hn], base.T)
 			}
+		case EIdent:
+			// a local variable that lives in a cell (captured by a closure, or address-taken):
+			// the cell itself is written
+			done := false
+			if env.fr != nil {
+				for _, c := range x.varCandidates(env.fr, t.Name) {
+					if !c.isAdr {
+						continue
+					}
+					if pv, ok := env.fr.vals[c.v]; ok {
+						pt := pointee(c.v.Type())
+						if su, isS := asStruct(pt); isS {
+							ss := x.S.SortOf(pt)
+							for i := 0; i < su.NumFields(); i++ {
+								hn, _ := x.S.FieldHeap(ss, su, i)
+								ex[hn] = append(ex[hn], pv.T)
+							}
+						} else {
+							hn, _ := x.S.CellHeapT(pt)
+							ex[hn] = append(ex[hn], pv.T)
+						}
+						done = true
+					}
+				}
+			}
+			if !done {
+				panic(specErr("modifies %s: not a local variable that lives in a cell", mt.Text))
+			}
 		default:
 			panic(specErr("unsupported modifies target %s", mt.Text))
 		}
